@@ -17,14 +17,16 @@ RULE = ("types from grammar U restricted to str-keyed mappings, 64-bit ints, byt
         "explicit marshal/unmarshal composition}; one evaluation = one (type, value, configuration) for which every clause was "
         "checked (independent stdlib parse equals marshal output, decode(encode(v)) restores v under the C01 rule, entry points "
         "agree on bytes and value, user coder called exactly once with exactly the marshalled value / given bytes); plus bytes-like "
-        "T carried verbatim; distinct = (type source, canonical value, configuration)")
+        "T carried verbatim (bare, behind NewType/Final/alias, by name/ForwardRef; payload in every bytes-like carrier) and pass-through roots (typing.Any, object) over JSON-plain values; distinct = (type source, canonical value, configuration)")
 ASSUMPTIONS = [
     "ints outside the default encoder's 64-bit range, non-str keys and lone surrogates are outside the quantifier (the default encoder rejects them by contract)",
     "value restoration is judged by the C01 oracle (strict, or fixpoint at ambiguous unions), so the same two union findings apply",
 ]
 PLAN = {"quick": dict(programs=2000, values=5, depth=3), "thorough": dict(programs=40000, values=10, depth=5)}
-FLOORS = {"quick": {"json_validity_checked": 25000, "entrypoint_agreements": 25000, "coder_call_checks": 15000, "bytes_types_checked": 300, "types_given_by_reference": 3000},
-          "thorough": {"json_validity_checked": 900000, "entrypoint_agreements": 900000, "coder_call_checks": 500000, "bytes_types_checked": 10000, "types_given_by_reference": 100000}}
+FLOORS = {"quick": {"json_validity_checked": 25000, "entrypoint_agreements": 25000, "coder_call_checks": 15000, "bytes_types_checked": 300, "types_given_by_reference": 3000,
+                    "bytes_types_wrapped_checked": 300, "bytes_type_forms": 40, "passthrough_roots_checked": 2500},
+          "thorough": {"json_validity_checked": 900000, "entrypoint_agreements": 900000, "coder_call_checks": 500000, "bytes_types_checked": 10000, "types_given_by_reference": 100000,
+                       "bytes_types_wrapped_checked": 10000, "bytes_type_forms": 60, "passthrough_roots_checked": 50000}}
 
 
 class Coder:
@@ -156,6 +158,84 @@ def one_value(sh, spec, v, prog, rng, coders):
                 sh.violations[-1].setdefault("config", cfg)
 
 
+def bytes_like_wrapped(sh, rng, prog, T, raw):
+    """bytes-like T behind NewType / Final / alias / a reference, and payloads in the other bytes-like carriers."""
+    import typing
+
+    name = f"_c02b_{T.__name__}"
+    setattr(prog.module, name, T)
+    nt = typing.NewType("Blob", T)
+    forms = [("NewType", nt), ("Final", typing.Final[T]), ("alias", typing.TypeAliasType("BlobAlias", T)), ("NewType.NewType", typing.NewType("Blob2", nt)),
+             ("name", T.__name__), ("qualified", f"{prog.name}.{name}"), ("ForwardRef", typing.ForwardRef(name, module=prog.name))]
+    how, W = rng.choice(forms)
+    carrier = rng.choice([bytes, bytearray, memoryview])
+    sh.count("bytes_types_wrapped_checked")
+    sh.see("bytes_type_forms", f"{T.__name__}:{how}:{carrier.__name__}")
+    sh.eval((f"{how}[{T.__name__}]", raw, carrier.__name__))
+    try:
+        with quiet():
+            cdc = typelib.codec(W)
+            e = cdc.encode(T(raw))
+            d = cdc.decode(carrier(raw))
+    except Exception as ex:  # noqa: BLE001
+        sh.violation("bytes-type-raised", type_src=f"{how}[{T.__name__}]", value=short(raw, 80), exc=type(ex).__name__, detail=str(ex)[:200], carrier=carrier.__name__)
+        return
+    # (the identity coder belongs to codec(); typelib.encode/decode always apply the configured encoder, as the explicit composition does)
+    if not (bytes(e) == raw and bytes(d) == raw and isinstance(d, T)):
+        sh.violation("bytes-not-verbatim", type_src=f"{how}[{T.__name__}]", value=short(raw, 80), carrier=carrier.__name__,
+                     encoded=short(e, 80), decoded=short(d, 80))
+
+
+def plain_value(rng, depth=0):
+    r = rng.random()
+    if depth >= 3 or r < 0.45:
+        return rng.choice([0, 1, -7, 2**53, 1.5, -0.25, "", "x", "é\u2603", "null", "[1]", True, False, None])
+    if r < 0.75:
+        return [plain_value(rng, depth + 1) for _ in range(rng.randrange(0, 4))]
+    return {rng.choice(["a", "b", "", "k y", "é"]): plain_value(rng, depth + 1) for _ in range(rng.randrange(0, 4))}
+
+
+def passthrough_roots(sh, rng, coders):
+    """T whose routine passes the value through (typing.Any, object): still JSON on the wire, all entry points agree."""
+    import typing
+
+    for T, tsrc in ((typing.Any, "typing.Any"), (object, "object")):
+        v = plain_value(rng)
+        for cfg in ("default", "stdlib", "tag"):
+            sh.count("passthrough_roots_checked")
+            sh.eval((tsrc, canon(v), cfg))
+            rec = dict(type_src=tsrc, value=short(v, 200), config=cfg)
+            try:
+                with quiet():
+                    if cfg == "default":
+                        cdc = typelib.codec(T)
+                        b2 = typelib.encode(v, t=T)
+                        b3 = typelib.compat.json.dumps(typelib.marshal(v, t=T))
+                    else:
+                        co = coders[cfg]
+                        cdc = typelib.codec(T, encoder=co.encode, decoder=co.decode)
+                        b2 = typelib.encode(v, t=T, encoder=co.encode)
+                        b3 = co.encode(typelib.marshal(v, t=T))
+                    b1 = cdc.encode(v)
+                    u1 = cdc.decode(b1)
+            except Exception as e:  # noqa: BLE001
+                sh.violation("entrypoint-raised", exc=type(e).__name__, detail=str(e)[:300], **rec)
+                continue
+            if not isinstance(b1, bytes):
+                sh.violation("encode-not-bytes", detail=type(b1).__name__, **rec)
+                continue
+            payload = b1[4:] if cfg == "tag" else b1
+            try:
+                parsed = json.loads(payload)
+            except Exception as e:  # noqa: BLE001
+                sh.violation("not-json", detail=f"{type(e).__name__}: {e}"[:200], encoded=short(payload, 200), **rec)
+                continue
+            if canon(parsed, strict=True) != canon(v, strict=True) or not same(u1, v, strict=True):
+                sh.violation("json-differs-from-marshal", encoded=short(payload, 200), decoded=short(u1, 200), **rec)
+            if not (b1 == bytes(b2) == bytes(b3)):
+                sh.violation("entrypoints-disagree-bytes", detail=f"codec={short(b1, 120)} api={short(b2, 120)} composed={short(b3, 120)}", **rec)
+
+
 def run_case(sh, i, plan):
     rng = case_rng(sh, i)
     clear_typelib_caches(also_typing=True)
@@ -184,6 +264,9 @@ def run_case(sh, i, plan):
                     continue
                 if bytes(e) != raw or bytes(d) != raw or not isinstance(d, T):
                     sh.violation("bytes-not-verbatim", type_src=T.__name__, value=short(raw, 80), encoded=short(e, 80), decoded=short(d, 80))
+                # ... also when the payload arrives in another bytes-like carrier than T, and when T is wrapped / given by reference
+                bytes_like_wrapped(sh, rng, prog, T, raw)
+            passthrough_roots(sh, rng, coders)
     finally:
         prog.drop()
 
